@@ -48,6 +48,18 @@ Proof.
 Qed.
 Print Assumptions C16_frame_load_order_independent.
 
+(* the order oracle run over the implementation's traces (every file order of the rules, reversed inventory,
+   1 / 4 worker threads, each compared with the load in script order) returns 0 on what the model produces *)
+Theorem C16_order_oracle_accepts_model : forall genv inv mid inv' rules rules',
+  Permutation rules rules' -> Permutation inv mid ->
+  Forall2 (fun h h' => ar_h_name h = ar_h_name h' /\ ar_h_fields h = ar_h_fields h' /\
+                       Permutation (ar_h_svcs h) (ar_h_svcs h')) mid inv' ->
+  ar_order_oracle (ar_apply_fast genv inv rules) (ar_apply_fast genv inv' rules') = 0 /\
+  ar_order_oracle (ar_apply genv inv rules) (ar_apply genv inv' rules') = 0 /\
+  ar_order_oracle (ar_apply_fast genv inv rules) (ar_fr_load AFPerRule genv inv' rules') = 0.
+Proof. exact ar_order_oracle_accepts_model. Qed.
+Print Assumptions C16_order_oracle_accepts_model.
+
 (* The statement is about where the frame is made: with one frame per EvaluateApplyRules call (or one for the
    whole evaluator) it fails.  const x = 80; host H { vars.l = [8080]; vars.p = 80 };
    A = apply Service "a" for (x in host.vars.l) {}; B = apply Service "b" { assign where host.vars.p == x }:
